@@ -5,7 +5,7 @@ SINGLE_POOL = [127250, 127257, 127251, 130306, 130312, 130314, 127245, 128259, 1
                129025, 129026, 65280, 59904, 59392, 126992, 127258, 130310, 130311, 130316, 61184, 65359]
 FAST_POOL = [129029, 126996, 126998, 129540, 130816, 126720, 127489, 129038, 129039, 129794, 129809, 129810,
              128275, 130820, 127506, 129284, 129285, 130577]
-UNKNOWN_POOL = [12345, 65000, 130999, 61000, 127000]
+UNKNOWN_POOL = [65000, 130999, 127000, 59136, 124672]      # canonical PGN numbers the database does not define
 MFG_CODES = [137, 275, 1855, 135, 229, 1851, 358, 381]      # Maretron, Navico, Furuno, Airmar, Garmin, Raymarine, Victron, B&G
 
 
